@@ -53,6 +53,9 @@ impl DateTime<Local> {
     #[verifier::external_body] pub fn iso_week(&self) -> (r: IsoWeek) ensures isoweek_week0(r) == week0_of(*self) { unimplemented!() }
     #[verifier::external_body] pub fn weekday(&self) -> (r: Weekday) ensures weekday_num(r) == weekday_of(*self) { unimplemented!() }
 }
+impl DateTime<Local> {
+    #[verifier::external_body] pub fn checked_add_signed(self, rhs: Duration) -> (r: Option<DateTime<Local>>) ensures r matches Some(d) ==> instant(d) == instant(self) + dur_secs(rhs) { unimplemented!() }
+}
 impl IsoWeek {
     #[verifier::external_body] pub fn week0(&self) -> (r: u32) ensures r == isoweek_week0(*self), 0 <= r < 53 { unimplemented!() }
     #[verifier::external_body] pub fn week(&self) -> (r: u32) ensures r == isoweek_week0(*self) + 1, 1 <= r <= 53 { unimplemented!() }
